@@ -44,12 +44,15 @@ class State:
 
 # ------------------------------------------------------------------ coq literals
 def cb(b):
-    """bytes -> Coq term of type `bytes` (compact: one hexadecimal numeral, see Common/Bytes.v:hexb)."""
-    if len(b) == 0:
-        return "[]"
-    if len(b) <= 4:
+    """bytes -> Coq term of type `bytes` (compact: seven bytes per primitive int, see Common/Lit.v:pk)."""
+    b = bytes(b)
+    if len(b) <= 3:
         return "[" + ";".join(str(x) for x in b) + "]"
-    return "(hexb %d%%nat 0x%s)" % (len(b), bytes(b).hex())
+    words = []
+    for i in range(0, len(b), 7):
+        ch = b[i:i + 7]
+        words.append(str(int.from_bytes(ch + bytes(7 - len(ch)), "big")))
+    return "(pk %d%%nat [%s]%%uint63)" % (len(b), ";".join(words))
 
 
 def cZ(n):
@@ -296,10 +299,529 @@ def run_types_engine(ctx, st):
     ctx.sample({"header_case": hsrc[1]["header"], "full_preimage": hsrc[1]["obs"]["full"][:80] + "..."})
 
 
-EXTRA_FAMILIES = []
+# ------------------------------------------------------------------ receipts
+STATUS = {"SUCCESS": "RSuccess", "CREATED": "RCreated", "ERROR": "RError", "RECREATED": "RRecreated"}
 
-IMPORTS = """From Coq Require Import NArith ZArith List Bool String.
-From Verif Require Import Common.Bytes Common.Sha256 Codec.Fields Codec.Digest Codec.ChainId %s.
+
+def coq_event(e):
+    return "(mk_event %s %s %s %s %s %s %d %s)" % (cb(e["addr"]), cb(e["name"]), cb(e["args"]), cZ(e["idx"]), cb(e["txhash"]),
+                                                   cb(e["blockhash"]), e["blockno"], cZ(e["txindex"]))
+
+
+def coq_receipt(r):
+    return "(mk_receipt %s %s %s %s %s %s %s [%s] %d %s)" % (
+        cb(r["addr"]), STATUS.get(r["status"], "ROther"), cb(r["ret"]), cb(r["txhash"]), cb(r["fee"]), cb(r["cumfee"]),
+        cb(r["bloom"]), "; ".join(coq_event(e) for e in r["events"]), r["gas"], cbool(r["feedeleg"]))
+
+
+def json_receipt(r):
+    return {"Addr": r["addr"].hex(), "Status": r["status"], "Ret": r["ret"].hex(), "TxHash": r["txhash"].hex(), "Fee": r["fee"].hex(),
+            "CumFee": r["cumfee"].hex(), "Bloom": r["bloom"].hex(), "GasUsed": r["gas"], "FeeDeleg": r["feedeleg"],
+            "Events": [{"Addr": e["addr"].hex(), "Name": e["name"].hex(), "Args": e["args"].hex(), "Idx": e["idx"],
+                        "TxHash": e["txhash"].hex(), "BlockHash": e["blockhash"].hex(), "BlockNo": e["blockno"], "TxIndex": e["txindex"]}
+                       for e in r["events"]]}
+
+
+def receipt_from_json(j):
+    return {"addr": hb(j["Addr"]), "status": j["Status"], "ret": hb(j["Ret"]), "txhash": hb(j["TxHash"]), "fee": hb(j["Fee"]),
+            "cumfee": hb(j["CumFee"]), "bloom": hb(j["Bloom"]), "gas": j["GasUsed"], "feedeleg": j["FeeDeleg"],
+            "events": [{"addr": hb(e["Addr"]), "name": hb(e["Name"]), "args": hb(e["Args"]), "idx": e["Idx"], "txhash": hb(e["TxHash"]),
+                        "blockhash": hb(e["BlockHash"]), "blockno": e["BlockNo"], "txindex": e["TxIndex"]} for e in j["Events"]]}
+
+
+def rand_event(rng, raddr, wf=True, memory=False):
+    k = rng.random()
+    if k < 0.5:
+        addr = raddr
+    else:
+        addr = bytes([rng.randrange(1, 256)]) + rbytes(rng, 32)
+    if not wf and rng.random() < 0.5:
+        addr = rng.choice([b"", bytes(33), rbytes(rng, rng.randrange(0, 40)), b"\x00" + rbytes(rng, 32)])
+    e = {"addr": addr, "name": rbytes(rng, rng.choice([0, 1, 5, 12])), "args": rbytes(rng, rng.choice([0, 2, 9, 40])),
+         "idx": rng.choice([0, 1, 2, 2 ** 31 - 1, -1, -2 ** 31, rng.randrange(0, 100)]),
+         "txhash": b"", "blockhash": b"", "blockno": 0, "txindex": 0}
+    if memory:
+        e.update(txhash=rbytes(rng, 32), blockhash=rbytes(rng, 32), blockno=rng.randrange(0, 2 ** 64), txindex=rng.randrange(0, 1000))
+    return e
+
+
+def rand_receipt(rng, wf=True, memory=False):
+    addr = rbytes(rng, 33)
+    r = {"addr": addr, "status": rng.choice(list(STATUS)), "ret": rbytes(rng, rng.choice([0, 0, 2, 17, 70])), "txhash": rbytes(rng, 32),
+         "fee": rbytes(rng, rng.choice([0, 1, 8, 9])), "cumfee": b"", "bloom": rng.choice([b"", b"", rbytes(rng, 256)]),
+         "gas": rng.choice([0, 1, 77, 2 ** 64 - 1, rng.randrange(0, 2 ** 40)]), "feedeleg": rng.random() < 0.4, "events": []}
+    for _ in range(rng.choice([0, 0, 1, 2, 3])):
+        r["events"].append(rand_event(rng, addr, wf, memory))
+    if not wf:
+        k = rng.randrange(7)
+        if k == 0:
+            r["addr"] = rbytes(rng, rng.choice([0, 5, 32, 34, 40]))
+        elif k == 1:
+            r["status"] = rng.choice(["", "FOO", "success"])
+        elif k == 2:
+            r["txhash"] = rbytes(rng, rng.choice([0, 5, 31, 33]))
+        elif k == 3:
+            r["cumfee"] = rbytes(rng, rng.choice([1, 2, 8]))
+        elif k == 4:
+            r["bloom"] = rbytes(rng, rng.choice([1, 7, 255, 257]))
+        # 5, 6: only the events are ill-formed
+    return r
+
+
+RECEIPT_FIELDS_V2 = ["addr", "status", "ret", "txhash", "fee", "cumfee", "gas", "feedeleg", "bloom", "events"]
+
+
+def mutate_receipt(rng, r, f):
+    """A well-formed receipt differing from r in the single field f."""
+    m = dict(r)
+    m["events"] = [dict(e) for e in r["events"]]
+    if f == "addr":
+        m["addr"] = mutate_fixed(rng, r["addr"])
+        for e, e0 in zip(m["events"], r["events"]):
+            if e0["addr"] == r["addr"]:
+                e["addr"] = e0["addr"] if e0["addr"][0] != 0 else e0["addr"]
+    elif f == "status":
+        m["status"] = rng.choice([x for x in STATUS if x != r["status"]])
+    elif f in ("ret", "fee"):
+        m[f] = mutate_bytes(rng, r[f])
+    elif f == "txhash":
+        m["txhash"] = mutate_fixed(rng, r["txhash"])
+    elif f == "cumfee":
+        m["cumfee"] = mutate_bytes(rng, r["cumfee"])
+    elif f == "gas":
+        m["gas"] = mutate_int(rng, r["gas"], "u64")
+    elif f == "feedeleg":
+        m["feedeleg"] = not r["feedeleg"]
+    elif f == "bloom":
+        m["bloom"] = b"" if r["bloom"] else rbytes(rng, 256)
+        if r["bloom"] and rng.random() < 0.5:
+            m["bloom"] = mutate_fixed(rng, r["bloom"])
+    elif f == "events":
+        k = rng.randrange(4)
+        if k == 0 or not m["events"]:
+            m["events"].append(rand_event(rng, r["addr"]))
+        elif k == 1:
+            m["events"].pop()
+        elif k == 2:
+            e = m["events"][rng.randrange(len(m["events"]))]
+            e[rng.choice(["name", "args"])] = mutate_bytes(rng, e["name"])
+            if e["name"] == r["events"][m["events"].index(e)]["name"] and e["args"] == r["events"][m["events"].index(e)]["args"]:
+                e["name"] = e["name"] + b"x"
+        else:
+            e = m["events"][rng.randrange(len(m["events"]))]
+            e["idx"] = e["idx"] + 1 if e["idx"] < 2 ** 31 - 1 else 0
+    return m
+
+
+def mutate_fixed(rng, b):
+    i = rng.randrange(len(b))
+    return b[:i] + bytes([b[i] ^ (1 << rng.randrange(8))]) + b[i + 1:]
+
+
+def opt_coq_bytes(s):
+    return "None" if s is None else "(Some %s)" % cb(hb(s))
+
+
+def receipts_family(ctx, st):
+    rng = ctx.rng
+    quick = ctx.tier == "quick"
+    cases, meta = [], []
+    # corpus: F17 witness (fee delegation receipt), a CumulativeFeeUsed receipt, empty-ish receipts
+    base_addr = bytes(range(1, 34))
+    f17 = {"addr": base_addr, "status": "SUCCESS", "ret": b"{}", "txhash": bytes(range(32)), "fee": b"\x01", "cumfee": b"", "bloom": b"",
+           "gas": 12345, "feedeleg": True, "events": []}
+    corpus = [f17, dict(f17, feedeleg=False, gas=0), dict(f17, status="ERROR", ret=b"boom"), dict(f17, cumfee=b"\x07\x08"),
+              dict(f17, events=[rand_event(rng, base_addr), {"addr": b"\x00" + bytes(32), "name": b"n", "args": b"[]", "idx": 1,
+                                                            "txhash": b"", "blockhash": b"", "blockno": 0, "txindex": 0}])]
+    singles = corpus + [rand_receipt(rng, True, rng.random() < 0.3) for _ in range(25 if quick else 400)] \
+        + [rand_receipt(rng, False) for _ in range(20 if quick else 300)]
+    for r in singles:
+        cases.append({"kind": "R", "ver": 2, "r": json_receipt(r)})
+        meta.append(("R", r, None, None))
+    # single-field mutations of well-formed receipts (merkle leaf binding on the implementation)
+    for bi in range(4 if quick else 60):
+        base = rand_receipt(rng, True)
+        cases.append({"kind": "R", "ver": 2, "r": json_receipt(base)})
+        meta.append(("RB", base, bi, None))
+        for f in RECEIPT_FIELDS_V2:
+            if f == "cumfee":
+                continue
+            m = mutate_receipt(rng, base, f)
+            cases.append({"kind": "R", "ver": 2, "r": json_receipt(m)})
+            meta.append(("RM", m, bi, f))
+    # receipt lists
+    nlists = 0
+    for ver in range(0, 6):
+        for hasbloom in (False, True):
+            for n in ([0, 1, 3] if quick else [0, 1, 2, 3, 4, 5, 8]):
+                rs = [rand_receipt(rng, True) for _ in range(n)]
+                keys = [rbytes(rng, rng.randrange(1, 20)) for _ in range(rng.randrange(0, 4))]
+                cases.append({"kind": "RS", "ver": ver, "hasbloom": hasbloom, "bloomkeys": [k.hex() for k in keys], "rs": [json_receipt(r) for r in rs]})
+                meta.append(("RS", rs, ver, hasbloom))
+                nlists += 1
+    obs = run_engine(ctx, st.types_bin, "TestVerifCodecEngine", cases, "receipts")
+    ritems, rsrc, lsitems, lssrc = [], [], [], []
+    bases = {}
+    for (kind, rec, a, b), o, c in zip(meta, obs, cases):
+        if kind in ("R", "RB", "RM"):
+            def dec(key):
+                if key in o and o.get(key + "_rest_ok"):
+                    return "(Some %s)" % coq_receipt(receipt_from_json(o[key]))
+                return "None"
+            ritems.append("(%s, (%s, %s, %s, %s), (%s, %s))" % (coq_receipt(rec), opt_coq_bytes(o.get("s1")), opt_coq_bytes(o.get("s2")),
+                                                               opt_coq_bytes(o.get("m1")), opt_coq_bytes(o.get("m2")), dec("d1"), dec("d2")))
+            rsrc.append({"receipt": c["r"], "obs": {k: (v if not isinstance(v, str) or len(v) < 200 else v[:200] + "...") for k, v in o.items()}})
+            wf = is_wf_receipt(rec)
+            st.nontrivial.add(("R", kind, rec["status"], len(rec["events"]), bool(rec["bloom"]), rec["feedeleg"], wf, b))
+            if wf:
+                # direct predicates: store round trips of the format's own fields
+                want2 = store_view(rec, True)
+                want1 = store_view(rec, False)
+                got2 = receipt_from_json(o["d2"]) if "d2" in o else None
+                got1 = receipt_from_json(o["d1"]) if "d1" in o else None
+                if got2 != want2 or not o.get("d2_rest_ok"):
+                    st.fail("C19:receipt-v2-roundtrip", "V2 receipt store round trip does not return what was written", {"receipt": c["r"], "obs": o})
+                if got1 != want1 or not o.get("d1_rest_ok"):
+                    st.fail("C19:receipt-v1-roundtrip", "V1 receipt store round trip loses a field the V1 format stores", {"receipt": c["r"], "obs": o})
+                if got1 is not None and (rec["feedeleg"] or rec["gas"]) and got1 == want1:
+                    # F17: the version-1 format has no GasUsed/FeeDelegation: they read back as 0/false
+                    st.fail("C19:F17-v1-receipt-drops-feedelegation-gasused",
+                            "V1 receipt store format drops FeeDelegation/GasUsed (written %s/%d, read back %s/%d)" % (
+                                rec["feedeleg"], rec["gas"], got1["feedeleg"], got1["gas"]), {"receipt": c["r"], "obs": o})
+            if kind == "RB":
+                bases[a] = (rec, o)
+            if kind == "RM":
+                brec, bo = bases[a]
+                case = {"field": b, "base": json_receipt(brec), "mutant": c["r"]}
+                if o.get("m2") == bo.get("m2") and not (b == "ret" and brec["status"] == "ERROR"):
+                    st.fail("C19:receipt-merkle-v2-misses-" + b, "V2 receipt merkle leaf input does not change when %s changes" % b, case)
+                if o.get("s2") == bo.get("s2"):
+                    st.fail("C19:receipt-store-v2-misses-" + b, "V2 receipt store encoding does not change when %s changes" % b, case)
+                if b not in ("gas", "feedeleg") and o.get("m1") == bo.get("m1") and not (b == "ret" and brec["status"] == "ERROR"):
+                    st.fail("C19:receipt-merkle-v1-misses-" + b, "V1 receipt merkle leaf input does not change when %s changes" % b, case)
+                if b in ("gas", "feedeleg") and o.get("m1") == bo.get("m1"):
+                    st.fail("C19:F17-v1-receipt-drops-feedelegation-gasused",
+                            "V1 receipt merkle leaf does not cover %s" % b, case)
+        else:
+            rs, ver, hasbloom = rec, a, b
+            v2 = ver >= 2
+            bloom = None
+            if hasbloom:
+                gob = hb(o["bloom_gob"])
+                if gob[:24] != (2048).to_bytes(8, "big") + (3).to_bytes(8, "big") + (2048).to_bytes(8, "big") or len(gob) != 280:
+                    st.fail("C19:bloom-gob-layout", "bloom GobEncode layout is not header(24)+256 bytes", {"gob": o["bloom_gob"][:80]})
+                bloom = gob[24:]
+            decs = "None"
+            if "dec" in o:
+                dl = [receipt_from_json(j) for j in o["dec"]]
+                db = "(Some %s)" % cb(hb(o["dec_bloom_gob"])[24:]) if o.get("dec_hasbloom") else "None"
+                decs = "(Some (%s, [%s]))" % (db, "; ".join(coq_receipt(r) for r in dl))
+                # direct predicates
+                if dl != [store_view(r, v2) for r in rs]:
+                    st.fail("C19:receipts-roundtrip", "receipt list read back differs from what was written (ver %d)" % ver, {"case": c, "obs": o})
+                if bool(o.get("dec_hasbloom")) != hasbloom or (hasbloom and o["dec_bloom_gob"] != o["bloom_gob"]):
+                    st.fail("C19:receipts-bloom-roundtrip", "bloom filter read back differs", {"case": c})
+                if not o.get("reenc_same"):
+                    st.fail("C19:receipts-reencode", "re-encoding the decoded receipt list gives different bytes", {"case": c})
+                if v2 and o.get("dec_root") != o.get("root"):
+                    st.fail("C19:receipts-root-after-roundtrip", "receipts root changes across a store round trip (ver %d)" % ver, {"case": c, "obs": o})
+                if not v2 and o.get("dec_root") != o.get("root") and not any(r["feedeleg"] or r["gas"] for r in rs):
+                    st.fail("C19:receipts-root-after-roundtrip", "receipts root changes across a store round trip (ver %d)" % ver, {"case": c, "obs": o})
+            lsitems.append("(%s, %s, [%s], %s, %s, %s)" % (cbool(v2), "None" if bloom is None else "(Some %s)" % cb(bloom),
+                                                         "; ".join(coq_receipt(r) for r in rs), opt_coq_bytes(o.get("enc")), decs, cb(hb(o["root"]))))
+            lssrc.append({"ver": ver, "hasbloom": hasbloom, "n": len(rs), "obs_root": o["root"]})
+            st.nontrivial.add(("RS", ver, hasbloom, len(rs)))
+    st.add_family("receipts", "receipt * (option bytes * option bytes * option bytes * option bytes) * (option receipt * option receipt)",
+                  "receipt_case_ok", ritems, rsrc)
+    st.add_family("receipt_lists", "bool * option bytes * list receipt * option bytes * option (option bytes * list receipt) * bytes",
+                  "(receipts_case_ok sha256)", lsitems, lssrc)
+    st.rules.append("receipts: corpus (F17 witness, CumulativeFeeUsed, zero-first-byte event address) + random well-formed and ill-formed "
+                    "receipts, each encoded in the 4 forms and decoded in both store versions; single-field mutants of well-formed "
+                    "receipts; receipt lists for fork versions 0..5 x bloom yes/no x sizes; distinct = (status, #events, bloom, "
+                    "feeDelegation, wf, mutated field) / (version, bloom, size) classes")
+    ctx.sample({"receipt_case": rsrc[0]["receipt"], "store_v1": rsrc[0]["obs"].get("s1"), "store_v2": rsrc[0]["obs"].get("s2")})
+
+
+def is_wf_receipt(r):
+    if len(r["addr"]) != 33 or r["status"] not in STATUS or len(r["txhash"]) != 32 or r["cumfee"] or len(r["bloom"]) not in (0, 256):
+        return False
+    for e in r["events"]:
+        if e["addr"] != r["addr"] and (len(e["addr"]) != 33 or e["addr"][0] == 0):
+            return False
+    return True
+
+
+def store_view(r, v2):
+    m = dict(r)
+    m["events"] = [dict(e, txhash=b"", blockhash=b"", blockno=0, txindex=0) for e in r["events"]]
+    if not v2:
+        m["gas"], m["feedeleg"] = 0, False
+    return m
+
+
+# ------------------------------------------------------------------ merkle
+def merkle_family(ctx, st):
+    rng = ctx.rng
+    quick = ctx.tier == "quick"
+    binpath = build_engine(ctx, "internal/merkle", ["zz_verif_merkle_engine_test.go"], "codec_merkle.test")
+    lists = []
+    sizes = list(range(0, 10)) + [15, 16, 17, 31, 33] if quick else list(range(0, 70)) + [127, 128, 129]
+    for n in sizes:
+        lists.append([rbytes(rng, 32) for _ in range(n)])
+    # F5: odd list vs the same list with its last entry repeated
+    f5 = []
+    for n in ([3, 5, 7] if quick else [3, 5, 7, 9, 11, 13, 21, 33]):
+        l = [rbytes(rng, 32) for _ in range(n)]
+        f5.append((len(lists), len(lists) + 1))
+        lists += [l, l + [l[-1]]]
+    # same-length lists differing in one leaf / swapped order
+    pairs = []
+    for n in ([2, 3, 4, 6] if quick else range(1, 20)):
+        l = [rbytes(rng, 32) for _ in range(n)]
+        m = list(l)
+        i = rng.randrange(n)
+        m[i] = mutate_fixed(rng, l[i])
+        pairs.append((len(lists), len(lists) + 1))
+        lists += [l, m]
+        if n >= 2:
+            sw = list(l)
+            sw[0], sw[-1] = sw[-1], sw[0]
+            pairs.append((len(lists) - 2, len(lists)))
+            lists.append(sw)
+    cases = [{"leaves": [x.hex() for x in l]} for l in lists]
+    obs = run_engine(ctx, binpath, "TestVerifMerkleEngine", cases, "merkle")
+    items, src = [], []
+    for l, o in zip(lists, obs):
+        if "panic" in o:
+            st.fail("C19:merkle-panic", "CalculateMerkleTree panicked", {"n": len(l), "panic": o["panic"]})
+            continue
+        items.append("([%s], %s)" % ("; ".join(cb(x) for x in l), cb(hb(o["root"]))))
+        src.append({"leaves": [x.hex() for x in l], "root": o["root"]})
+        st.nontrivial.add(("M", len(l)))
+    for a, b in f5:
+        if obs[a]["root"] == obs[b]["root"]:
+            st.fail("C19:F5-merkle-length-not-bound", "merkle root of %d entries equals the root of the list with the last entry repeated" % len(lists[a]),
+                    {"leaves": cases[a]["leaves"], "root": obs[a]["root"]})
+    for a, b in pairs:
+        if obs[a]["root"] == obs[b]["root"]:
+            st.fail("C19:merkle-not-binding", "two different lists of the same length have the same root", {"a": cases[a], "b": cases[b]})
+    st.add_family("merkle", "list bytes * bytes", "(merkle_case_ok sha256)", items, src)
+    st.rules.append("merkle: random 32-byte leaf lists of every size in the range, odd lists vs last-entry-repeated (F5), same-length "
+                    "lists with one leaf flipped / two swapped; distinct = list sizes")
+
+
+# ------------------------------------------------------------------ hardfork versions
+def hardfork_family(ctx, st):
+    rng = ctx.rng
+    quick = ctx.tier == "quick"
+    binpath = build_engine(ctx, "config", ["zz_verif_hardfork_engine_test.go"], "codec_config.test")
+    cases = []
+
+    def rcfg():
+        k = rng.random()
+        if k < 0.5:
+            hs = sorted(rng.randrange(0, 200) for _ in range(4))
+        elif k < 0.7:
+            hs = [rng.randrange(0, 200) for _ in range(4)]          # possibly not monotone (validate fails)
+        elif k < 0.85:
+            hs = sorted(rng.choice([0, 0, 1, 2 ** 64 - 1, 2 ** 63, rng.randrange(0, 2 ** 64)]) for _ in range(4))
+        else:
+            x = rng.randrange(0, 100)
+            hs = sorted([x, x, rng.randrange(0, 200), rng.randrange(0, 200)])
+        return hs
+    for cfg in [[19611555, 111499715, 173677571, 196150000], [0, 0, 0, 0], [10, 20, 30, 40]]:
+        for h in sorted({0, 1, 9, 10, 11, 19, 20, 29, 30, 31, 39, 40, 41, 2 ** 64 - 1} | set(cfg) | {x - 1 for x in cfg if x} | {x + 1 for x in cfg}):
+            cases.append({"cfg": cfg, "h": h, "chk": False})
+    for _ in range(60 if quick else 2000):
+        cfg = rcfg()
+        hs = {rng.choice(cfg), max(0, rng.choice(cfg) - 1), min(2 ** 64 - 1, rng.choice(cfg) + 1), rng.randrange(0, 250)}
+        for h in hs:
+            cases.append({"cfg": cfg, "h": h, "chk": False})
+    # monotonicity tables: one configuration, ascending heights
+    tables = []
+    for _ in range(5 if quick else 100):
+        cfg = rcfg()
+        start = len(cases)
+        for h in range(0, 210, 7 if quick else 1):
+            cases.append({"cfg": cfg, "h": h, "chk": False})
+        tables.append((start, len(cases)))
+    # compatibility: stored configuration = current one with one entry changed / missing / extra newer version
+    for _ in range(60 if quick else 2000):
+        cfg = rcfg()
+        db = {"V%d" % (i + 2): cfg[i] for i in range(4)}
+        k = rng.randrange(6)
+        if k == 1:
+            i = rng.randrange(4)
+            db["V%d" % (i + 2)] = max(0, cfg[i] + rng.choice([-1, 1, -50, 50]))
+        elif k == 2:
+            del db["V%d" % rng.randrange(2, 6)]
+        elif k == 3:
+            db["V6"] = rng.randrange(0, 250)
+        elif k == 4:
+            db = {"V%d" % (i + 2): rng.randrange(0, 200) for i in range(4)}
+        cases.append({"cfg": cfg, "h": rng.randrange(0, 250), "db": db, "chk": True})
+    obs = run_engine(ctx, binpath, "TestVerifHardforkEngine", cases, "hardfork")
+    if any(o["nfields"] != 4 for o in obs):
+        st.fail("C19:hardfork-field-count", "HardforkConfig no longer has 4 fork heights", {"nfields": obs[0]["nfields"]})
+    vitems, vsrc, citems, csrc = [], [], [], []
+    for c, o in zip(cases, obs):
+        cfgs = "[" + ";".join(str(x) for x in c["cfg"]) + "]"
+        valid = all(c["cfg"][i] <= c["cfg"][i + 1] for i in range(3))
+        if not c["chk"]:
+            vitems.append("(%s, %d, %d, [%s])" % (cfgs, c["h"], o["version"], ";".join(cbool(b) for b in o["forks"])))
+            vsrc.append({"case": c, "obs": o})
+            st.nontrivial.add(("V", o["version"], tuple(o["forks"]), valid))
+            # direct predicate: for a validated configuration Version(h) is the highest active fork
+            if valid:
+                want = max([i + 2 for i in range(4) if o["forks"][i]] or [0])
+                if o["version"] != want:
+                    st.fail("C19:version-vs-isfork", "Version(h) is not the highest fork active at h", {"case": c, "obs": o})
+        else:
+            db = "[" + ";".join("(%d, %d)" % (int(k[1:]), v) for k, v in sorted(c["db"].items())) + "]"
+            citems.append("(%s, %s, %d, %s)" % (cfgs, db, c["h"], cbool(o["compat"])))
+            csrc.append({"case": c, "obs": o})
+            st.nontrivial.add(("C", o["compat"], len(c["db"])))
+            if o["compat"] and o["version"] != o["db_version"]:
+                st.fail("C19:compat-different-version", "CheckCompatibility accepts but stored and configured versions differ at h", {"case": c, "obs": o})
+    for a, b in tables:
+        vs = [obs[i]["version"] for i in range(a, b)]
+        if any(vs[i] > vs[i + 1] for i in range(len(vs) - 1)):
+            st.fail("C19:version-not-monotone", "Version(h) decreases as h grows", {"cfg": cases[a]["cfg"], "versions": vs})
+    st.add_family("hardfork_version", "hf_config * N * N * list bool", "version_case_ok", vitems, vsrc)
+    st.add_family("hardfork_compat", "hf_config * hf_db * N * bool", "compat_case_ok", citems, csrc)
+    st.rules.append("hardfork: mainnet/all-enabled/hand-made + random (sorted, unsorted, extreme, tied) height configurations x heights at, "
+                    "below and above each fork; ascending-height tables; stored configurations equal / one entry changed / missing / "
+                    "newer version / random; distinct = (version, fork bits, validated) and (compatible, #stored) classes")
+
+
+# ------------------------------------------------------------------ signed transaction digest (account/key)
+def txsign_family(ctx, st):
+    rng = ctx.rng
+    quick = ctx.tier == "quick"
+    binpath = build_engine(ctx, "account/key", ["zz_verif_key_engine_test.go"], "codec_key.test")
+    cases, meta = [], []
+    bases = tx_corpus() + [rand_tx(rng) for _ in range(2 if quick else 40)]
+    for bi, base in enumerate(bases):
+        cases.append({"t": json_tx(base)})
+        meta.append((bi, None, base))
+        for f in TX_FIELDS:
+            m = mutate_record(rng, base, f, TINT)
+            cases.append({"t": json_tx(m)})
+            meta.append((bi, f, m))
+    obs = run_engine(ctx, binpath, "TestVerifKeyEngine", cases, "txsign")
+    items, src, base_obs = [], [], {}
+    for (bi, f, rec), o in zip(meta, obs):
+        if f is None:
+            base_obs[bi] = (rec, o)
+        else:
+            brec, bo = base_obs[bi]
+            case = {"field": f, "base": json_tx(brec), "mutant": json_tx(rec)}
+            if f == "Sign":
+                if o["signhash"] != bo["signhash"]:
+                    st.fail("C19:tx-signed-digest-depends-on-sign", "signed transaction digest depends on Sign", case)
+            elif o["signhash"] == bo["signhash"]:
+                st.fail("C19:tx-signed-digest-misses-" + f, "signed transaction digest does not cover field %s" % f, case)
+            st.nontrivial.add(("TS", f))
+        items.append("(%s, %s)" % (coq_tx(rec), cb(hb(o["signhash"]))))
+        src.append({"tx": json_tx(rec), "obs": o})
+    st.add_family("tx_sign_digest", "txbody * bytes",
+                  "(fun c : txbody * bytes => let '(t, d) := c in bytes_eqb (tx_sign_digest sha256 t) d)", items, src)
+    st.rules.append("signed tx digest: the tx cases again through account/key.CalculateHashWithoutSign")
+
+
+# ------------------------------------------------------------------ chain id
+def coq_cid(c):
+    return "(%d, %s, %s, %s, %s)" % (c["v"] % 2 ** 32, cbool(c["p"]), cbool(c["m"]), cb(c["magic"]), cb(c["cons"]))
+
+
+def chainid_family(ctx, st):
+    rng = ctx.rng
+    quick = ctx.tier == "quick"
+    cids = [{"v": 0, "p": False, "m": False, "magic": b"", "cons": b""},
+            {"v": 3, "p": True, "m": False, "magic": b"dev.chain", "cons": b"sbp"},
+            {"v": 2, "p": True, "m": True, "magic": b"aergo.io", "cons": b"dpos"},
+            {"v": -1, "p": False, "m": True, "magic": b"x", "cons": b"raft"},
+            {"v": 2 ** 31 - 1, "p": True, "m": True, "magic": b"\xff\x00", "cons": b"\x00"},
+            # F6 corpus: separators inside magic / consensus
+            {"v": 3, "p": True, "m": False, "magic": b"a/a", "cons": b"dpos"},
+            {"v": 3, "p": True, "m": False, "magic": b"aergo", "cons": b"d/pos"},
+            {"v": 3, "p": False, "m": False, "magic": b"/", "cons": b""}]
+    alpha = b"abcdefghijklmnopqrstuvwxyz.0123456789"
+    for _ in range(30 if quick else 600):
+        slashy = rng.random() < 0.15
+        def rs():
+            n = rng.randrange(0, 12)
+            b = bytes(rng.choice(alpha) for _ in range(n)) if rng.random() < 0.8 else bytes(rng.choice([x for x in range(256) if x != 47]) for _ in range(n))
+            if slashy and rng.random() < 0.7:
+                i = rng.randrange(0, len(b) + 1)
+                b = b[:i] + b"/" + b[i:]
+            return b
+        cids.append({"v": rng.choice([0, 1, 2, 3, 4, 5, -1, -2 ** 31, 2 ** 31 - 1, rng.randrange(-2 ** 31, 2 ** 31)]),
+                     "p": rng.random() < 0.5, "m": rng.random() < 0.5, "magic": rs(), "cons": rs()})
+    cases = [{"kind": "C", "cid": {"Version": c["v"], "Public": c["p"], "Main": c["m"], "Magic": c["magic"].hex(), "Consensus": c["cons"].hex()}}
+             for c in cids]
+    raws = [b"", b"\x01", b"\x01\x00\x00\x00", b"\x01\x00\x00\x00\x01", b"\x01\x00\x00\x00\x01\x00", b"\x01\x00\x00\x00\x02\x03a/b",
+            b"\x01\x00\x00\x00\x00\x00//", b"\x01\x00\x00\x00\x00\x00/"]
+    for _ in range(20 if quick else 400):
+        n = rng.randrange(0, 24)
+        raws.append(bytes(rng.choice([47, 47, 0, 1, 97, 98, rng.randrange(256)]) for _ in range(n)))
+    cases += [{"kind": "CR", "raw": r.hex()} for r in raws]
+    mcs = []
+    for _ in range(10 if quick else 200):
+        mcs.append((rbytes(rng, rng.choice([0, 1, 3, 4, 5, 20])), rng.choice([0, 1, 2, 3, 5, -1, 2 ** 31 - 1])))
+    cases += [{"kind": "MC", "raw": r.hex(), "v": v} for r, v in mcs]
+    obs = run_engine(ctx, st.types_bin, "TestVerifCodecEngine", cases, "chainid")
+
+    def dec_term(o):
+        if "dec" not in o:
+            return "None"
+        d = o["dec"]
+        return "(Some (%d, %s, %s, %s, %s))" % (d["Version"] % 2 ** 32, cbool(d["Public"]), cbool(d["Main"]), cb(hb(d["Magic"])), cb(hb(d["Consensus"])))
+    items, src, ritems, rsrc, mitems, msrc = [], [], [], [], [], []
+    for c, o in zip(cids, obs[:len(cids)]):
+        if "enc" not in o:
+            st.fail("C19:chainid-bytes-error", "ChainID.Bytes failed", {"cid": str(c), "obs": o})
+            continue
+        items.append("(%s, %s, %s)" % (coq_cid(c), cb(hb(o["enc"])), dec_term(o)))
+        src.append({"cid": {k: (v.hex() if isinstance(v, bytes) else v) for k, v in c.items()}, "obs": o})
+        slash = b"/" in c["magic"] or b"/" in c["cons"]
+        st.nontrivial.add(("CID", slash, c["p"], c["m"], len(c["magic"]) > 0))
+        back = None
+        if "dec" in o:
+            d = o["dec"]
+            back = (d["Version"], d["Public"], d["Main"], hb(d["Magic"]), hb(d["Consensus"]))
+        if back != (c["v"], c["p"], c["m"], c["magic"], c["cons"]):
+            if slash:
+                st.fail("C19:F6-chainid-slash", "chain id with '/' in magic/consensus is written by Bytes() and not read back by Read()",
+                        {"cid": src[-1]["cid"], "obs": o})
+            else:
+                st.fail("C19:chainid-roundtrip", "chain id without '/' does not round trip", {"cid": src[-1]["cid"], "obs": o})
+    for r, o in zip(raws, obs[len(cids):len(cids) + len(raws)]):
+        ritems.append("(%s, %s)" % (cb(r), dec_term(o)))
+        rsrc.append({"raw": r.hex(), "obs": o})
+        st.nontrivial.add(("CR", "dec" in o, min(len(r), 7)))
+        if "dec_panic" in o:
+            st.fail("C19:chainid-read-panic", "ChainID.Read panicked", {"raw": r.hex(), "obs": o})
+    for (r, v), o in zip(mcs, obs[len(cids) + len(raws):]):
+        dv = "None" if o["decode_ver"] == -1 and len(r) < 4 else "(Some %d)" % (o["decode_ver"] % 2 ** 32)
+        mk = "None" if "make" not in o else "(Some %s)" % cb(hb(o["make"]))
+        mitems.append("(%s, %d, %s, %s)" % (cb(r), v % 2 ** 32, dv, mk))
+        msrc.append({"raw": r.hex(), "v": v, "obs": o})
+    st.add_family("chain_id", "(N * bool * bool * bytes * bytes) * bytes * option (N * bool * bool * bytes * bytes)", "chain_id_case_ok", items, src)
+    st.add_family("chain_id_read", "bytes * option (N * bool * bool * bytes * bytes)", "chain_id_read_case_ok", ritems, rsrc)
+    st.add_family("make_chain_id", "bytes * N * option N * option bytes",
+                  "(fun c : bytes * N * option N * option bytes => let '(raw, v, dv, mk) := c in "
+                  "match decode_chain_id_version raw, dv with Some a, Some b => a =? b | None, None => true | _, _ => false end && "
+                  "opt_bytes_eqb (make_chain_id raw v) mk)", mitems, msrc)
+    st.rules.append("chain id: corpus (empty, dev, main, negative/extreme versions, F6 witnesses) + random ids (15% with '/'), Read on "
+                    "truncated/random/slash-heavy byte strings, MakeChainId on short and long ids; distinct = (has '/', flags, magic empty) classes")
+
+
+EXTRA_FAMILIES = [receipts_family, merkle_family, hardfork_family, txsign_family, chainid_family]
+EXTRA_TARGETS = ["Common/Sha256.vo", "Common/Lit.vo", "Codec/Receipt.vo", "Codec/Merkle.vo", "Codec/Hardfork.vo"]  # evaluated models that no theorem depends on
+
+IMPORTS = """From Coq Require Import NArith ZArith List Bool String Uint63.
+From Verif Require Import Common.Bytes Common.Lit Common.Sha256 Codec.Fields Codec.Digest Codec.ChainId Codec.Merkle Codec.Receipt Codec.Hardfork %s.
 Import ListNotations.
 Open Scope N_scope.
 """
